@@ -958,12 +958,30 @@ func constMapTable(prog *ssa.Program, g *ssa.Global) (map[int64]ssa.Value, bool)
 	for _, r := range *mk.Referrers() {
 		switch x := r.(type) {
 		case *ssa.MapUpdate:
-			kc, isK := x.Key.(*ssa.Const)
-			if !isK || x.Map != ssa.Value(mk) {
+			if x.Map != ssa.Value(mk) {
 				return fail()
 			}
-			k, isN := constNumber(kc)
-			if !isN {
+			var k int64
+			if kc, isK := x.Key.(*ssa.Const); isK {
+				kk, isN := constNumber(kc)
+				if !isN {
+					return fail()
+				}
+				k = kk
+			} else if call, isC := stripAll(x.Key).(*ssa.Call); isC && call.Call.StaticCallee() != nil && len(call.Call.Args) == 1 {
+				// a key written as CODING.ToUint8(): folded through the enum method
+				ak, isAK := constNumber(call.Call.Args[0])
+				if !isAK {
+					return fail()
+				}
+				constTablesMu.Unlock()
+				_, kk, isConst, _ := evalEnum(call.Call.StaticCallee(), ak)
+				constTablesMu.Lock()
+				if !isConst {
+					return fail()
+				}
+				k = kk
+			} else {
 				return fail()
 			}
 			if _, dup := tbl[k]; dup {
@@ -1191,6 +1209,65 @@ func selectRules(c *core.Ctx, codecs map[string]method05) {
 			firstOn  ssa.Value // the receiver of the first decoder call
 			problems []string
 			isDef    bool
+			viaTable bool // the codec was taken from a constant table of constructors
+		}
+		// a constant table id -> func(source) Codec consulted with the data-coding parameter
+		var codecTable *ssa.Lookup
+		tableCodec := map[int64]string{} // key -> codec type name
+		for _, b := range dec.Blocks {
+			for _, ins := range b.Instrs {
+				lk, isLk := ins.(*ssa.Lookup)
+				if !isLk || stripAll(lk.Index) != tag {
+					continue
+				}
+				ld, isLd := lk.X.(*ssa.UnOp)
+				if !isLd {
+					continue
+				}
+				g, isG := ld.X.(*ssa.Global)
+				if !isG {
+					continue
+				}
+				tbl, isT := constMapTable(dec.Prog, g)
+				if !isT {
+					continue
+				}
+				okAll := true
+				for k, v := range tbl {
+					var cf *ssa.Function
+					switch x := v.(type) {
+					case *ssa.Function:
+						cf = x
+					case *ssa.MakeClosure:
+						if len(x.Bindings) == 0 {
+							cf, _ = x.Fn.(*ssa.Function)
+						}
+					}
+					if cf == nil || len(cf.Params) != 1 || len(cf.Blocks) != 1 {
+						okAll = false
+						break
+					}
+					ret, isR := cf.Blocks[0].Instrs[len(cf.Blocks[0].Instrs)-1].(*ssa.Return)
+					if !isR || len(ret.Results) != 1 {
+						okAll = false
+						break
+					}
+					mi, isMI := ret.Results[0].(*ssa.MakeInterface)
+					if !isMI || stripAll(mi.X) != ssa.Value(cf.Params[0]) {
+						okAll = false
+						break
+					}
+					nt := namedOfType(mi.X.Type())
+					if nt == nil {
+						okAll = false
+						break
+					}
+					tableCodec[k] = nt.Obj().Name()
+				}
+				if okAll && len(tableCodec) > 0 {
+					codecTable = lk
+				}
+			}
 		}
 		var all []dpath
 		var tagProblems []string
@@ -1201,6 +1278,7 @@ func selectRules(c *core.Ctx, codecs map[string]method05) {
 			compared := 0
 			var decodeCalls map[*ssa.Call]string
 			var lastDecode *ssa.Call
+			tableFound := false
 			for _, e := range p.Events {
 				last = e
 				switch e.Kind {
@@ -1210,6 +1288,14 @@ func selectRules(c *core.Ctx, codecs map[string]method05) {
 						continue
 					}
 					n, recv := dynCalleeName(call, e.Resolve)
+					if codecTable != nil && call.Call.IsInvoke() && call.Call.Method.Name() == "Decode" {
+						if ctor, isC := e.Resolve(call.Call.Value).(*ssa.Call); isC && ctor.Call.StaticCallee() == nil && !ctor.Call.IsInvoke() && len(ctor.Call.Args) == 1 {
+							if ex, isE := e.Resolve(ctor.Call.Value).(*ssa.Extract); isE && ex.Index == 0 && ex.Tuple == ssa.Value(codecTable) {
+								n, recv = "table:(entry).Decode", ctor.Call.Args[0]
+								dp.viaTable = true
+							}
+						}
+					}
 					if strings.HasSuffix(n, ").Decode") || strings.HasPrefix(n, gsm7Path) || strings.HasSuffix(n, ").Encode") || n == "invoke.Decode" || n == "invoke.Encode" {
 						dp.calls = append(dp.calls, n)
 						if dp.first == nil {
@@ -1239,6 +1325,12 @@ func selectRules(c *core.Ctx, codecs map[string]method05) {
 				case paths.EvBranch:
 					if k, ok := e.Resolve(e.Cond).(*ssa.Const); ok && k.Value != nil && k.Value.Kind() == constant.Bool {
 						continue // decided by the flag's value on this path
+					}
+					if ex, isE := e.Resolve(e.Cond).(*ssa.Extract); isE && codecTable != nil && ex.Tuple == ssa.Value(codecTable) && ex.Index == 1 {
+						if e.Taken {
+							tableFound = true
+						}
+						continue
 					}
 					if s, neq, ok := nilTest(e.Cond); ok {
 						if neq == e.Taken {
@@ -1285,7 +1377,10 @@ func selectRules(c *core.Ctx, codecs map[string]method05) {
 					}
 				}
 			}
-			dp.isDef = len(dp.nums) == 0
+			dp.isDef = len(dp.nums) == 0 && !tableFound
+			if dp.viaTable && !tableFound {
+				dp.problems = append(dp.problems, "a table entry is used on a path where the lookup was not found to succeed")
+			}
 			// results
 			if len(p.Results) == 2 {
 				r0, r1 := p.Results[0], p.Results[1]
@@ -1312,6 +1407,25 @@ func selectRules(c *core.Ctx, codecs map[string]method05) {
 				default:
 					dp.problems = append(dp.problems, "a path returns error "+role(last, r1)+" that is not the decoder's error")
 				}
+			}
+			if tableFound && codecTable != nil {
+				// one path stands for every key of the table
+				for k, codec := range tableCodec {
+					kp := dp
+					kp.nums = []int64{k}
+					kp.calls = nil
+					for _, cn := range dp.calls {
+						if cn == "table:(entry).Decode" {
+							cn = load.Module + "/datacoding.(" + codec + ").Decode"
+						}
+						kp.calls = append(kp.calls, cn)
+					}
+					if len(dp.calls) == 0 {
+						kp.problems = append(append([]string{}, dp.problems...), "the table entry is looked up but not used to decode")
+					}
+					all = append(all, kp)
+				}
+				continue
 			}
 			all = append(all, dp)
 		}
